@@ -187,6 +187,22 @@ fn content_formats(rep: &mut Report, r: &mut Rng) {
             other => rep.violation("content-format-set-over-same-number", format!("option held a padded encoding of {} plus another value, then set_content_format({:?}): (getter, raw values, wire ok) = {:?}", id, cf, other.map_err(|p| p.text())), format!("{:?}", cf)),
         }
     }
+    // every ordered pair of named formats: whatever was set before, the format set last is what getter, raw state and wire show
+    for (prev, _pid) in all.iter() {
+        for (cf, id) in all.iter() {
+            rep.eval();
+            let res = guard(|| {
+                let mut p = Packet::new();
+                p.set_content_format(*prev);
+                p.set_content_format(*cf);
+                (p.get_content_format(), cf_raw(&p))
+            });
+            match res {
+                Ok((Some(got), raw)) if got == *cf && raw == vec![min_be(*id as u64)] => rep.count("content_format_ordered_pairs"),
+                other => rep.violation("content-format-set-twice", format!("set {:?} then {:?}: (getter, raw Content-Format values) = {:?}", prev, cf, other.map_err(|p| p.text())), format!("{:?} then {:?}", prev, cf)),
+            }
+        }
+    }
     // raw values without a name -> None; over-long -> None
     for id in [1usize, 2, 15, 20, 24, 39, 43, 64, 99, 100, 255, 257, 433, 9999, 10003, 65535] {
         rep.eval();
@@ -417,6 +433,29 @@ fn trait_views(rep: &mut Report, r: &mut Rng, budget: u64, level: u32) {
             continue;
         }
         let wit = format!("{} | built by: {}", m.describe(), how);
+        // an insertion order that keeps the order of values within one option number
+        let order: Vec<usize> = {
+            let mut groups: Vec<Vec<usize>> = Vec::new();
+            for (i, o) in m.options.iter().enumerate() {
+                if i > 0 && m.options[i - 1].0 == o.0 {
+                    groups.last_mut().unwrap().push(i);
+                } else {
+                    groups.push(vec![i]);
+                }
+            }
+            for g in groups.iter_mut() {
+                g.reverse();
+            }
+            let mut out = Vec::new();
+            while !groups.is_empty() {
+                let k = r.usize_below(groups.len());
+                out.push(groups[k].pop().unwrap());
+                if groups[k].is_empty() {
+                    groups.swap_remove(k);
+                }
+            }
+            out
+        };
         // ---- coap-message 0.2
         rep.eval();
         let res = guard(|| {
@@ -432,6 +471,18 @@ fn trait_views(rep: &mut Report, r: &mut Rng, budget: u64, level: u32) {
             <Packet as MinimalWritableMessage>::set_payload(&mut q, &payload);
             let mut q2 = Packet::new();
             <Packet as MinimalWritableMessage>::set_from_message(&mut q2, &p);
+            // options added in an arbitrary order (the type is a SeekWritableMessage): per-number order kept
+            let mut q4 = Packet::new();
+            <Packet as MinimalWritableMessage>::set_code(&mut q4, code);
+            for i in order.iter() {
+                <Packet as MinimalWritableMessage>::add_option(&mut q4, CoapOption::from(opts[*i].0), &opts[*i].1);
+            }
+            <Packet as MinimalWritableMessage>::set_payload(&mut q4, &payload);
+            // a buffer that already holds a longer payload is mapped to a shorter length
+            let mut q5 = p.clone();
+            q5.payload = vec![0xCC; payload.len() + 9];
+            let short = <Packet as MutableWritableMessage>::payload_mut_with_len(&mut q5, payload.len() / 2).len();
+            let shrink_ok = short == payload.len() / 2 && q5.payload.len() == payload.len() / 2;
             // mutable view
             let mut q3 = q.clone();
             let newlen = payload.len() + 3;
@@ -450,7 +501,7 @@ fn trait_views(rep: &mut Report, r: &mut Rng, budget: u64, level: u32) {
                     v[0] ^= 0xff;
                 }
             });
-            (u8::from(code), payload, opts, q, q2, view_ok, trunc_ok, seen, q3)
+            (u8::from(code), payload, opts, q, q2, view_ok, trunc_ok && shrink_ok && packet_to_msg(&q4) == plain(&m), seen, q3)
         });
         match res {
             Err(pn) => rep.violation(&format!("trait-0.2-{}", pn.sig()), pn.text(), wit.clone()),
@@ -475,7 +526,7 @@ fn trait_views(rep: &mut Report, r: &mut Rng, budget: u64, level: u32) {
                 } else if packet_to_msg(&q2) != plain(&m) {
                     rep.violation("trait-0.2-set-from-message", format!("copy reads {}", packet_to_msg(&q2).describe()), wit.clone());
                 } else if !view_ok || !trunc_ok {
-                    rep.violation("trait-0.2-payload-mut", format!("payload_mut_with_len ok {} truncate ok {}", view_ok, trunc_ok), wit.clone());
+                    rep.violation("trait-0.2-payload-mut-or-unordered-add", format!("payload_mut_with_len (grow) ok {}; truncate / shrink / options added in arbitrary order ok {}", view_ok, trunc_ok), wit.clone());
                 } else if seen != m.options || packet_to_msg(&q3).options != flipped {
                     rep.violation("trait-0.2-mutate-options", format!("callback saw {} options", seen.len()), wit.clone());
                 } else {
@@ -498,6 +549,16 @@ fn trait_views(rep: &mut Report, r: &mut Rng, budget: u64, level: u32) {
             <Packet as MinimalWritableMessage>::set_payload(&mut q, &payload).unwrap();
             let mut q2 = Packet::new();
             let sfm = <Packet as MinimalWritableMessage>::set_from_message(&mut q2, &p).is_ok();
+            let mut q4 = Packet::new();
+            <Packet as MinimalWritableMessage>::set_code(&mut q4, code);
+            for i in order.iter() {
+                <Packet as MinimalWritableMessage>::add_option(&mut q4, CoapOption::from(opts[*i].0), &opts[*i].1).unwrap();
+            }
+            <Packet as MinimalWritableMessage>::set_payload(&mut q4, &payload).unwrap();
+            let mut q5 = p.clone();
+            q5.payload = vec![0xCC; payload.len() + 9];
+            let short = <Packet as MutableWritableMessage>::payload_mut_with_len(&mut q5, payload.len() / 2).unwrap().len();
+            let shrink_ok = short == payload.len() / 2 && q5.payload.len() == payload.len() / 2 && packet_to_msg(&q4) == plain(&m);
             let mut q3 = q.clone();
             let newlen = payload.len() + 2;
             let view = <Packet as MutableWritableMessage>::payload_mut_with_len(&mut q3, newlen).unwrap();
@@ -512,7 +573,7 @@ fn trait_views(rep: &mut Report, r: &mut Rng, budget: u64, level: u32) {
                     v[l - 1] = v[l - 1].wrapping_add(1);
                 }
             });
-            (u8::from(code), payload, opts, q, q2, sfm, view_ok, trunc_ok, seen, q3)
+            (u8::from(code), payload, opts, q, q2, sfm, view_ok, trunc_ok && shrink_ok, seen, q3)
         });
         match res {
             Err(pn) => rep.violation(&format!("trait-0.3-{}", pn.sig()), pn.text(), wit.clone()),
@@ -537,7 +598,7 @@ fn trait_views(rep: &mut Report, r: &mut Rng, budget: u64, level: u32) {
                 } else if !sfm || packet_to_msg(&q2) != plain(&m) {
                     rep.violation("trait-0.3-set-from-message", format!("ok {} copy reads {}", sfm, packet_to_msg(&q2).describe()), wit.clone());
                 } else if !view_ok || !trunc_ok {
-                    rep.violation("trait-0.3-payload-mut", format!("payload_mut_with_len ok {} truncate ok {}", view_ok, trunc_ok), wit.clone());
+                    rep.violation("trait-0.3-payload-mut-or-unordered-add", format!("payload_mut_with_len (grow) ok {}; truncate / shrink / options added in arbitrary order ok {}", view_ok, trunc_ok), wit.clone());
                 } else if seen != m.options || packet_to_msg(&q3).options != bumped {
                     rep.violation("trait-0.3-mutate-options", format!("callback saw {} options", seen.len()), wit.clone());
                 } else {
